@@ -237,6 +237,20 @@ static void cmdParam(const Msg& q, Msg& r) {
     else r["error"] = "bad kind";
 }
 
+// snapshot: sizes of the internal stacks of the transformer's execution context (hook H2, guard APACHE_XALAN_C_VERIF)
+static void cmdSnapshot(const Msg& q, Msg& r) {
+    TState* s = findT(q, r); if (!s) return;
+#if defined(APACHE_XALAN_C_VERIF)
+    XalanVector<XalanSize_t> v(XalanMemMgrs::getDefaultXercesMemMgr());
+    s->t->verifSnapshot(v);
+    std::string o;
+    for (XalanVector<XalanSize_t>::size_type i = 0; i < v.size(); ++i) { if (i) o += ','; o += itos(long(v[i])); }
+    r["sizes"] = o;
+#else
+    r["error"] = "built without APACHE_XALAN_C_VERIF";
+#endif
+}
+
 static void cmdSetopt(const Msg& q, Msg& r) {
     TState* s = findT(q, r); if (!s) return;
     if (has(q, "indent")) s->t->setIndent(int(geti(q, "indent")));
@@ -546,6 +560,7 @@ int main(int argc, char** argv) {
             else if (cmd == "psdel") cmdPsdel(q, r);
             else if (cmd == "param") cmdParam(q, r);
             else if (cmd == "setopt") cmdSetopt(q, r);
+            else if (cmd == "snapshot") cmdSnapshot(q, r);
             else if (cmd == "transform") cmdTransform(q, r);
             else if (cmd == "capi") cmdCapi(q, r);
             else if (cmd == "num") cmdNum(q, r);
